@@ -217,6 +217,60 @@ Proof.
   lia.
 Qed.
 
+(* ---------------- and back: adding the vertex to a face of the link ---------------- *)
+Lemma nat_insert_head a r : (forall y, In y r -> a < y) -> nat_insert a r = a :: r.
+Proof.
+  destruct r as [|b r]; intros H; [reflexivity|]. cbn [nat_insert].
+  destruct (Nat.ltb_spec a b) as [_|Hc]; [reflexivity|]. specialize (H b (or_introl eq_refl)). lia.
+Qed.
+
+Lemma nat_insert_remove pt l : sorted l -> In pt l -> nat_insert pt (nat_remove pt l) = l.
+Proof.
+  intros Hs Hp. apply sorted_ext; auto.
+  - apply nat_insert_sorted, nat_remove_sorted, Hs.
+  - intros x. rewrite nat_insert_In, nat_remove_In. split.
+    + intros [->|[Hx _]]; assumption.
+    + intros Hx. destruct (Nat.eq_dec x pt) as [->|Hne]; [left; reflexivity|right; split; assumption].
+Qed.
+
+Lemma face_plus_vertex_in pt : forall s r, sorted s -> In pt s ->
+  In r (drop_one (nat_remove pt s)) -> In (nat_insert pt r) (drop_one s).
+Proof.
+  induction s as [|a l IH]; intros r Hs Hp Hr; [destruct Hp|].
+  pose proof (sorted_NoDup _ Hs) as Hnd. inversion Hnd as [|? ? Ha Hnd']; subst.
+  apply sorted_cons_inv in Hs as [Hsl Hf]. rewrite Forall_forall in Hf.
+  cbn [nat_remove] in Hr. cbn [drop_one].
+  destruct (Nat.eqb_spec pt a) as [->|Hne].
+  - rewrite nat_remove_notin in Hr by exact Ha. right.
+    rewrite nat_insert_head; [apply in_map; exact Hr|].
+    intros y Hy. apply Hf. eapply drop_one_incl; eauto.
+  - destruct Hp as [Hp|Hp]; [congruence|]. cbn [drop_one] in Hr. destruct Hr as [<-|Hr].
+    + left. symmetry. apply nat_insert_remove; assumption.
+    + apply in_map_iff in Hr as [r' [<- Hr']]. right.
+      assert (Hlt : a < pt) by (apply Hf; exact Hp).
+      cbn [nat_insert]. destruct (Nat.ltb_spec pt a) as [Hc|_]; [lia|].
+      destruct (Nat.eqb_spec pt a) as [Hc|_]; [lia|]. apply in_map. apply IH; assumption.
+Qed.
+
+Lemma cf_map_remove_rev pt r : forall ss, (forall s, In s ss -> sorted s /\ In pt s) ->
+  cf r (map (nat_remove pt) ss) <= cf (nat_insert pt r) ss.
+Proof.
+  induction ss as [|s ss IH]; intros Hs; [rewrite !cf_nil; lia|]. cbn [map]. rewrite !cf_cons.
+  destruct (Hs s (or_introl eq_refl)) as [Hss Hps].
+  assert (H1 : count_face r (drop_one (nat_remove pt s)) <= count_face (nat_insert pt r) (drop_one s)).
+  { destruct (In_dec_s r (drop_one (nat_remove pt s))) as [Hr|Hr].
+    - pose proof (@count_face_sorted r (nat_remove pt s) (nat_remove_sorted pt _ Hss)).
+      pose proof (count_face_in _ _ (@face_plus_vertex_in pt s r Hss Hps Hr)). lia.
+    - rewrite (count_face_notin _ _ Hr). lia. }
+  assert (H2 : cf r (map (nat_remove pt) ss) <= cf (nat_insert pt r) ss).
+  { apply IH. intros s' Hs'. apply Hs. right; exact Hs'. }
+  lia.
+Qed.
+
+(* the link of vertex [pt]: the simplices around it with [pt] removed *)
+Definition link_of (pt : nat) (ss : list simplex) : list simplex :=
+  map (nat_remove pt) (filter (fun s => nat_mem pt s) ss).
+
 Section TriFacets.
   Variable P : Type.
   Variable d : nat.
@@ -633,6 +687,40 @@ Section TriFacets.
       - unfold t'. destruct (add_point d t p hint o) as [t2 r] eqn:E. cbn [fst snd] in *. subst r.
         eapply Nat.le_trans; [eapply add_point_interior; eauto using reach_WF|apply Hridge].
       - apply old_facets_stay_le2; auto. apply broken_faces_false; exact Hb.
+    Qed.
+    (* both paths of add_point: if the link of the new vertex is a
+       pseudo-manifold (every ridge of the link in at most two of its faces),
+       every facet of the triangulation is in at most two simplices *)
+    Theorem link_manifold_keeps_hull_property :
+      broken_faces (all_faces (simplices t)) = false ->
+      (forall r, cf r (link_of (nverts t) (simplices t')) <= 2) ->
+      broken_faces (all_faces (simplices t')) = false.
+    Proof.
+      intros Hb Hlink. apply broken_faces_false. intros g.
+      destruct (in_dec Nat.eq_dec (nverts t) g) as [Hin|Hin].
+      - destruct simplices_sorted_nodup as [_ Hsrt].
+        rewrite (cf_partition g (fun s => nat_mem (nverts t) s) (simplices t')).
+        rewrite (cf_zero g (filter (fun s => negb (nat_mem (nverts t) s)) (simplices t'))).
+        + rewrite Nat.add_0_r. eapply Nat.le_trans; [|apply (Hlink (nat_remove (nverts t) g))].
+          unfold link_of. apply cf_map_remove; [|exact Hin].
+          intros s Hs. apply filter_In in Hs as [Hs _]. apply Hsrt; exact Hs.
+        + intros s Hs Hgs. apply filter_In in Hs as [_ Hn]. apply negb_true_iff in Hn.
+          assert (Hc : nat_mem (nverts t) s = true); [|rewrite Hc in Hn; discriminate].
+          apply nat_mem_In. eapply drop_one_incl; eauto.
+      - apply old_facets_stay_le2; auto. apply broken_faces_false; exact Hb.
+    Qed.
+    (* ... and conversely: a triangulation with the hull property has a
+       pseudo-manifold link at the new vertex *)
+    Theorem hull_property_gives_link_manifold :
+      broken_faces (all_faces (simplices t')) = false ->
+      forall r, cf r (link_of (nverts t) (simplices t')) <= 2.
+    Proof.
+      intros Hb r. destruct simplices_sorted_nodup as [_ Hsrt].
+      pose proof (proj1 (broken_faces_false _) Hb (nat_insert (nverts t) r)) as Hle.
+      unfold link_of. eapply Nat.le_trans; [apply cf_map_remove_rev|].
+      - intros s Hs. apply filter_In in Hs as [Hs Hm]. split; [apply Hsrt; exact Hs|apply nat_mem_In; exact Hm].
+      - eapply Nat.le_trans; [|exact Hle].
+        rewrite (cf_partition (nat_insert (nverts t) r) (fun s => nat_mem (nverts t) s) (simplices t')). apply Nat.le_add_r.
     Qed.
   End AtState.
 End TriFacets.
